@@ -51,6 +51,7 @@ impl Prop for C06 {
             "exact_consumption_6",
             "indefinite_block_last",
             "optional_typed_pull_on_wrong_type",
+            "tolerant_handler_pulls_on_after_refused_conversion",
         ];
         v.into_iter().map(String::from).collect()
     }
@@ -121,6 +122,9 @@ impl Prop for C06 {
                         PullTy::ChanList,
                         PullTy::U64,
                     ]);
+                    // a tolerant handler: carries on with its next pull after a failed conversion
+                    // (which must then be offered the NEXT element, not the refused one again)
+                    u.plan.swallow = rng.chance(1, 2);
                 }
                 if i > 0 && rng.chance(1, 4) {
                     u.lead = gen_ws(&mut rng, false);
@@ -184,6 +188,13 @@ impl Prop for C06 {
                     let mut key = vec![n as u8, m as u8, pos, ending, u.query as u8];
                     key.extend(surplus.iter());
                     stats.state(&key);
+                    if u.plan.swallow {
+                        if let Some(j) = u.plan.pulls.iter().position(|p| p.ty != PullTy::Tok) {
+                            if j < n && j + 1 < m && j + 1 < n {
+                                stats.probe("tolerant_handler_pulls_on_after_refused_conversion");
+                            }
+                        }
+                    }
                     if m > n {
                         stats.fault("F2_overconsume");
                         let first_req = u.plan.pulls[n].req;
